@@ -77,9 +77,10 @@ class Flow:
                     val = dc.value
                     if isinstance(val, (ast.ListComp, ast.SetComp, ast.GeneratorExp)) and norm(val.generators[0].iter) == v:
                         x = norm(val.generators[0].target)
-                        for cond in val.generators[0].ifs:
-                            if isinstance(cond, ast.Compare) and isinstance(cond.ops[0], ast.In) and norm(cond.left) == x and norm(cond.comparators[0]) in self.tables and norm(val.elt) == x:
-                                vals_ok, tbl = True, tbl or norm(cond.comparators[0])
+                        for cond0 in val.generators[0].ifs:
+                            for cond in ast.walk(cond0):   # the membership test may be one conjunct of the filter
+                                if isinstance(cond, ast.Compare) and len(cond.ops) == 1 and isinstance(cond.ops[0], ast.In) and norm(cond.left) == x and norm(cond.comparators[0]) in self.tables and norm(val.elt) == x and self._conjunct(cond0, cond):
+                                    vals_ok, tbl = True, tbl or norm(cond.comparators[0])
                     self.filtered[a.targets[0].id] = (tbl, keys_ok, vals_ok)
 
     @staticmethod
